@@ -476,6 +476,29 @@ def main():
                        "diagnostic": rec["d"] if rec else None, "oracle": o,
                        "claim": "prop_C18_diag: 1 file, 2 start after end, 3 outside the file, 4 outside the construct, "
                                 "5 covered text differs from the value, 6 code/severity not as documented"})
+    if not fails and (corr_bad or text_bad) and not a.replay:
+        # the model no longer describes the code: look harder - the same routes under other layouts
+        wide = make_projects(rng, [r for pr in projects[:8] for r in pr["routes"] if "prefix" in r])
+        wouts, wlays = run_projects(wide, workdir + "_w")
+        keepw = [k for k, o in enumerate(wouts) if "tree" in o]
+        wide, wouts, wlays = [wide[k] for k in keepw], [wouts[k] for k in keepw], [wlays[k] for k in keepw]
+        wres = evaluate(wide, wouts, wlays, "widen")
+        for k, (pr, out, rs) in enumerate(zip(wide, wouts, wres)):
+            for rec, o in zip(rs["od"], rs["oracle"]):
+                d = rec["d"]
+                if o != 0 and not (o == 4 and "found void" in d["message"]):
+                    fails.append((len(projects) + k, rec, o))
+        if fails:
+            projects = projects + wide
+            for (k, rec, o) in fails[:2]:
+                name = rec["entity"][1]
+                pr = projects[k]
+                rs_ = [r for r in pr["routes"] if r["name"] == name] or pr["routes"][:1]
+                res.violation({"kind": "property-fails-on-implementation",
+                               "input": strip_project({"controllers": [c for c in pr["controllers"] if c["name"] == rs_[0]["ctl"]],
+                                                       "routes": rs_}),
+                               "diagnostic": rec["d"], "oracle": o,
+                               "note": "found while widening the search after a model/implementation disagreement"})
     if not fails and (corr_bad or text_bad):
         k = (corr_bad[0][0] if corr_bad else text_bad[0])
         res.violation({"kind": "correspondence",
